@@ -1302,7 +1302,9 @@ class JumpBase(FinalInstruction):
         """Clear references"""
         while self._block_map:
             _, block = self._block_map.popitem()
-            block.references.remove(self)
+            # A block may be the target more than once (cjmp a ? x : x):
+            if block not in self._block_map.values():
+                block.references.remove(self)
 
     @property
     def targets(self):
